@@ -475,6 +475,9 @@ def run_oracle(case, raw, flags):
             imp = impulse0(i)
             if v0 is not None:
                 zero(vp - Rational(v0) - imp / Cv, li, 'v(0+) = v0 + impulse/C violated for %s (v(0+) = %s, v0 = %s)' % (law['name'], vp, v0))
+                if not conds[law['jv']]:
+                    # a response that is claimed for t < 0 as well must arrive at the specified initial state
+                    zero(left_limit0(v) - Rational(v0), li, 'the response of %s is given for t < 0 but does not reach the initial voltage %s at t = 0-' % (law['name'], v0))
             elif not conds[law['jv']]:
                 zero(vp - left_limit0(v) - imp / Cv, li, 'capacitor voltage of %s is not continuous at t = 0 (no impulse accounts for the jump)' % law['name'])
         elif k == 'L':
@@ -493,6 +496,8 @@ def run_oracle(case, raw, flags):
                 for M, i0k, jk in law['ms']:
                     tot += Rational(M) * (right_limit0(stripped[jk]) - Rational(i0k))
                 zero(tot - imp, li, 'i(0+) = i0 + impulse/L violated for %s (i(0+) = %s, i0 = %s)' % (law['name'], ip, i0))
+                if not conds[law['ji']]:
+                    zero(left_limit0(i) - Rational(i0), li, 'the response of %s is given for t < 0 but does not reach the initial current %s at t = 0-' % (law['name'], i0))
             elif not conds[law['ji']]:
                 tot = Lv * (ip - left_limit0(i))
                 for M, i0k, jk in law['ms']:
@@ -549,8 +554,9 @@ def get_quant(c, q):
 
 
 def circuit_flags(c):
-    fl = {'is_ivp': bool(c.is_IVP), 'is_causal': bool(c.is_causal), 'is_dc': bool(c.is_dc), 'is_ac': bool(c.is_ac),
-          'kinds': [str(k) for k in c.sub.keys()], 'src_causal': {}, 'zeroic': {}, 'has_ic': {}}
+    a = c.analysis
+    fl = {'is_ivp': bool(a.ivp), 'is_causal': bool(a.causal), 'is_dc': bool(a.dc), 'is_ac': bool(a.ac),
+          'src_causal': {}, 'zeroic': {}, 'has_ic': {}}
     for name, elt in c.elements.items():
         if elt.is_independent_source:
             fl['src_causal'][name] = bool(elt.is_causal)
@@ -677,36 +683,43 @@ def run_switch(case):
     # reference: interval-by-interval solution with Lcapy's own solver on netlists whose switches
     # were replaced by the harness (case['switch']['intervals'] = [{"netlist": [...], "T": "p/q"|None}, ...]):
     # the waveform of each reactive element of interval k at its end, handed to interval k+1
-    ref = {}
-    prev = None
-    try:
-        for iv in sw.get('intervals', []):
+    def reference(intervals):
+        prev = None
+        for iv in intervals:
             cc = Circuit()
             for line in iv['netlist']:
                 nm = line.split()[0]
                 if prev is not None and nm in prev:
                     line = line + ' {' + str(prev[nm]) + '}'
                 cc.add(line)
-            if iv.get('T') is None:
-                break
             Tq = Rational(iv['T'])
             prev = {}
             for name in sw.get('reactive', []):
                 el = cc[name]
-                w = el.v if cc.elements[name].type == 'C' else el.i
-                x, _ = strip_cond(w.sympy)
+                wv = el.v if cc.elements[name].type == 'C' else el.i
+                x, _ = strip_cond(wv.sympy)
                 prev[name] = sym.simplify(left_value(x, Tq))
+        ref = {}
         if prev is not None:
             for name, val in prev.items():
                 d = expconst(sym.sympify(val))
                 ref[name] = [[['%d/%d' % (k[0].numerator, k[0].denominator), '%d/%d' % (k[1].numerator, k[1].denominator)],
                               ['%d/%d' % (v[0].numerator, v[0].denominator), '%d/%d' % (v[1].numerator, v[1].denominator)]]
                              for k, v in sorted(d.items()) if v != (Fraction(0), Fraction(0))]
-        out['ref_ics'] = ref
+        return ref
+    try:
+        out['ref_ics'] = reference(sw.get('intervals', []))
     except CaseTimeout:
         raise
     except Exception as ex:
         out['ref_error'] = type(ex).__name__ + ': ' + str(ex)[:200]
+    if sw.get('intervals_code'):
+        try:
+            out['code_ics'] = reference(sw['intervals_code'])
+        except CaseTimeout:
+            raise
+        except Exception as ex:
+            out['code_error'] = type(ex).__name__ + ': ' + str(ex)[:200]
     return out
 
 
